@@ -22,6 +22,14 @@ impl Instant {
     }
 }
 
+impl Instant {
+    pub fn checked_add(self, rhs: Duration) -> Option<Self> {
+        Some(Self {
+            time: self.time.checked_add(rhs)?,
+        })
+    }
+}
+
 impl std::ops::Add<Duration> for Instant {
     type Output = Self;
 
